@@ -260,3 +260,15 @@ fn test_factor_base_size() {
     assert!(7000 <= b224 && b224 <= 15000);
     assert!(30_000 <= b256 && b256 <= 50_000);
 }
+
+/// Verification hooks (only with `--cfg yamaquasi_verif`): the private table selector.
+#[cfg(yamaquasi_verif)]
+pub mod verif_hooks {
+    use super::*;
+
+    /// `select_fb_size` on table 0 = QS, 1 = MPQS, 2 = class group.
+    pub fn vh_select_fb_size(bitsize: u32, use_double: bool, table: usize) -> u32 {
+        let t = [QS_FBSIZES, MPQS_FBSIZES, CLASSGROUP_FBSIZES][table];
+        select_fb_size(bitsize, use_double, t)
+    }
+}
